@@ -39,6 +39,10 @@ package ice
 //@   safety index nil
 //@   requires conn != nil
 //@   modifies fam:H_net.Conn.wpos, fam:H_net.Conn.wstream, fam:E_uint8
+//@   ghostvar writes int = 0
+//@   site call Write#0 ghost writes := writes + 1
+//@   site call Write#0 assert the-whole-frame-goes-out-in-one-write: len(arg0) == 2 + len(buf)
+//@   ensures a-frame-is-one-write-so-that-a-refusing-or-interleaving-writer-never-splits-it: writes <= 1
 //@   ensures too-long: len(buf) > 65535 ==> err != nil && conn.wpos == old(conn.wpos)
 //@   ensures count: err == nil ==> result == len(buf)
 //@   ensures advance: err == nil ==> conn.wpos == old(conn.wpos) + 2 + len(buf)
